@@ -327,6 +327,14 @@ def merge_distinct(exe_any, files):
     return int(out.strip().splitlines()[-1])
 
 
+def first_failure_line(out):
+    for line in out.splitlines():
+        if line.startswith('REPLAY-FAIL') or 'ERROR: AddressSanitizer' in line or 'runtime error' in line \
+                or 'Assertion' in line or 'TIMEOUT' in line or 'hang' in line:
+            return line.strip()
+    return (out.strip().splitlines() or ['(no output)'])[-1]
+
+
 def handle_failure(pid, j, workdir):
     """returns dict(kind='violation'|'known'|'unconfirmed', ...)"""
     exe, spec = j['exe'], j['spec']
@@ -357,14 +365,7 @@ def handle_failure(pid, j, workdir):
         f, o = replay_once(exe, spec, tmp)
         fails += 1 if f else 0
         outs.append(o)
-    msg = ''
-    for line in outs[-1].splitlines():
-        if line.startswith('REPLAY-FAIL') or 'ERROR: AddressSanitizer' in line or 'runtime error' in line \
-                or 'Assertion' in line or 'TIMEOUT' in line or 'hang' in line:
-            msg = line.strip()
-            break
-    if not msg:
-        msg = (outs[-1].strip().splitlines() or ['(no output)'])[-1]
+    msg = first_failure_line(outs[-1])
     extra = ['# origin: ' + src, '# confirmed: failed %d/3 library-free replays' % fails, '# message: ' + msg]
     extra += ['# ' + l for l in outs[-1].splitlines()[:200]]
     d['comments'] = ['# librfn-verif replay']
@@ -405,7 +406,7 @@ def _run_property(pid, tier, prop, seed, workdir, evid_path, t0):
         if d['harness'] in HARNESS:
             exe = build_harness(d['harness'])
             f, o = replay_once(exe, HARNESS[d['harness']], path)
-            regress.append(dict(path=path, failed=f))
+            regress.append(dict(path=path, failed=f, msg=first_failure_line(o)))
     done = run_jobs(jobs)
     violations, knowns, unconfirmed = [], [], []
     for r in regress:
@@ -414,7 +415,7 @@ def _run_property(pid, tier, prop, seed, workdir, evid_path, t0):
             d = parse_replay(r['path'])
             exe = build_harness(d['harness'])
             if all(replay_once(exe, HARNESS[d['harness']], r['path'])[0] for _ in range(2)):
-                violations.append(dict(kind='violation', msg='saved regression case fails again', path=r['path']))
+                violations.append(dict(kind='violation', msg='saved regression case fails again: ' + r['msg'], path=r['path']))
     seen_paths = set(v['path'] for v in violations)
     # one failure per stage is triaged (the one with the shortest tape); the rest share its root cause
     # far more often than not, and a second root cause shows up on the next run once the first is fixed
